@@ -713,7 +713,7 @@ class VectorMixedProduct(Expr):  # type: ignore[misc]
             return SymDerivative(self, symbol, evaluate=False)
 
         a, b, c = self.args
-        return VectorDot(a, VectorCross(b, c)).diff(symbol)
+        return VectorDot(a, VectorCross(b, c, evaluate=False), evaluate=False).diff(symbol)
 
 
 class AppliedVectorFunction(sym_fn.Application, VectorExpr):  # type: ignore[misc]
